@@ -40,6 +40,8 @@ NOTES = {
     'C01-w4a': 'first pre-check: missed. Universe: explicitly tagged CHOICE whose own tag number is re-used by an alternative one level down',
     'C01-w4b': 'first pre-check: missed. Universe: wide shallow values (150 constructed members / constructed strings in one encoding)',
     'C03-w4b': 'first pre-check: missed. Universe: SETs mixing tag numbers below and above 31 / 64 / 128 and classes',
+    'C04-w4a': 'first run: missed (the pre-check hit was a false positive of my own - an extreme base-10 REAL in the universe, since removed). C04: read-only use of a record held as a component (every member, values(), its own encoding); universe: DEFAULT record holding OPTIONAL constructed members',
+    'C04-w4b': 'not reported by C04: a per-call option that sticks to the codec singleton is a purity matter. Reported by C12, whose alphabet has calls carrying omitEmptyOptionals',
     'C05-w4b': 'first pre-check: missed by C05 (needs another decode between polls). C12 part B now interleaves decoders of DIFFERENT values of one type (bit strings with different unused-bit counts), which reports it',
     'C07-w4a': 'first pre-check: missed. Universe: ANY values that are indefinite-length TLVs under long-form identifiers',
     'C07-w4b': 'first pre-check: missed. C07: one-shot decode from a raw stream that hands out at most 16 octets per read, followed by a 40-octet tail',
